@@ -364,6 +364,9 @@ def run(ctx, deep_budget=None):
     deep_limit = deep_budget or ctx.pick(7000, 400000)
     n_deep = 0
     for i, s in enumerate(strings):
+        if ctx.time_left() is not None and ctx.time_left() < 0:
+            ctx.notes.append("search budget used up after %d of %d strings" % (i, len(strings)))
+            break
         model = answers[5 * i: 5 * i + 5]
         if model and model[0] is None:
             model = None
@@ -389,7 +392,11 @@ def run(ctx, deep_budget=None):
 
 
 def widen(ctx):
+    was = ctx.tier
     ctx.tier = "thorough"
+    if was == "quick" and ctx.deadline is None:
+        import time
+        ctx.deadline = time.time() + 300      # a quick run searches a few minutes, not the whole thorough space
     run(ctx)
 
 
